@@ -1,6 +1,7 @@
 package checks
 
 import (
+	"fmt"
 	"math"
 	"testing"
 
@@ -15,9 +16,12 @@ import (
 
 // C07 — comparison and boolean operators follow XPath 1.0 (existential on node-sets).
 
-const ruleC07 = "rapid: document whose values are numeric, non-numeric, empty and mixed (incl. ' 12 ', '1e3', '+5', 'Inf', '0x1p4' on which Go's ParseFloat and the XPath Number grammar disagree) x context x expression from exactly the operand matrix of the statement: number op number (6 ops; NaN via number('x'), +-Infinity via 1 div 0, count()), node-set op number both orders (6 ops), string =/!= string, node-set =/!= string both orders, node-set =/!= node-set, and/or over any two of {number, string, boolean, node-set, comparison} nested to depth 2, not(boolean|node-set), boolean(any), true()/false(); node-sets are flat paths; short-circuit made observable by a right operand that raises the package's deliberate argument-type error. Oracle: Evaluate = reference evaluator (bool); the same expression as predicate of //*[...] selects accordingly; no panic of any kind. Non-trivial: a node-set operand with >= 2 nodes whose individual verdicts differ, or a NaN/infinite operand, or a short-circuit case; distinct by (document, context, expression)."
+const ruleC07 = "rapid: document whose values are numeric, non-numeric, empty and mixed (incl. ' 12 ', '1e3', '+5', 'Inf', '0x1p4' on which Go's ParseFloat and the XPath Number grammar disagree) x context x expression from exactly the operand matrix of the statement: number op number (6 ops; NaN via number('x'), +-Infinity via 1 div 0, count()), node-set op number both orders (6 ops), string =/!= string, node-set =/!= string both orders, node-set =/!= node-set, and/or over any two of {number, string, boolean, node-set, comparison} nested to depth 2, not(boolean|node-set), boolean(any), true()/false(); node-sets are flat paths; short-circuit made observable by a right operand that raises the package's deliberate argument-type error. enum (exhaustive): every operator x every operand pair of every claimed type combination over fixed operand lists (9 numbers incl. NaN/+-Infinity, 7 strings, 8 node-set paths) on 8 documents x 3 contexts. Oracle: Evaluate = reference evaluator (bool); the same expression as predicate of //*[...] selects accordingly; no panic of any kind. Non-trivial: a node-set operand with >= 2 nodes whose individual verdicts differ, or a NaN/infinite operand, or a short-circuit case; distinct by (document, context, expression)."
 
-var uC07 = harness.NewUnit("C07", "rapid-comparisons", ruleC07)
+var (
+	uC07     = harness.NewUnit("C07", "rapid-comparisons", ruleC07)
+	uC07Enum = harness.NewUnit("C07", "enum-operand-matrix", ruleC07)
+)
 
 func init() {
 	harness.RegisterOracle("C07/compare", func(l *harness.Live) *harness.Failure {
@@ -174,4 +178,134 @@ func TestC07Rapid(t *testing.T) {
 		})
 	})
 	_ = xdoc.NS
+}
+
+// TestC07Matrix enumerates the operand-type matrix of the statement completely
+// over fixed operand lists and rich documents: every operator x every operand
+// pair of every claimed type combination.
+func TestC07Matrix(t *testing.T) {
+	nums := []string{"0", "1", "2.5", "-3", "10", "number('x')", "1 div 0", "-1 div 0", "count(//a)"}
+	strs := []string{"''", "'1'", "'t'", "' 12 '", "'1e3'", "'10'", "string(//a)"}
+	sets := []string{"//a", "//b", "//@x", "//zz", "//text()", "a", "@y", "."}
+	all6 := []string{"=", "!=", "<", "<=", ">", ">="}
+	eq := []string{"=", "!="}
+	type combo struct {
+		l, r []string
+		ops  []string
+		kind string
+	}
+	combos := []combo{
+		{nums, nums, all6, "number-number"},
+		{sets, nums, all6, "nodeset-number"}, {nums, sets, all6, "number-nodeset"},
+		{strs, strs, eq, "string-string"},
+		{sets, strs, eq, "nodeset-string"}, {strs, sets, eq, "string-nodeset"},
+		{sets, sets, eq, "nodeset-nodeset"},
+	}
+	docs := richDocsC07(harness.EnvInt("VERIF_SEED", 1))
+	shard, shards := harness.Shard()
+	var total int64
+	idx := 0
+	for _, c := range combos {
+		for _, op := range c.ops {
+			for _, lt := range c.l {
+				for _, rt := range c.r {
+					idx++
+					if idx%shards != shard {
+						continue
+					}
+					text := lt + " " + op + " " + rt
+					ast, err := parseSimpleCmp(lt, op, rt)
+					if err != nil {
+						t.Fatalf("harness: %v", err)
+					}
+					for _, d := range docs {
+						for _, ctx := range spreadContexts(d, 3) {
+							l := &harness.Live{Property: "C07", Check: "C07/compare", Doc: d, Ctx: ctx, AST: ast, Expr: xast.Render(ast), Params: map[string]interface{}{"short_circuit": false}}
+							_ = text
+							info, f := oracleC07(l)
+							if f != nil {
+								if f == cappedFailure {
+									continue
+								}
+								harness.Report(t, uC07Enum, l, f)
+							}
+							total++
+							uC07Enum.Case(harness.Mix(d.Hash(), uint64(ctx.ID), harness.Hash64(l.Expr)), info.nontrivial, append(info.labels, "matrix:"+c.kind), func() interface{} {
+								return l.Sample("value", info.want.String())
+							})
+						}
+					}
+				}
+			}
+		}
+	}
+	uC07Enum.SetExhaustive(total)
+	uC07Enum.Done(total)
+}
+
+// operandAST builds the AST of one of the fixed operand spellings above.
+func operandAST(s string) (xast.Expr, error) {
+	name := func(n string) *xast.Step {
+		return &xast.Step{Axis: "child", Test: xast.NodeTest{Kind: "name", Local: n}, Abbr: true}
+	}
+	switch s {
+	case "0", "1", "2.5", "10":
+		return &xast.Num{Lit: s}, nil
+	case "-3":
+		return &xast.Neg{X: &xast.Num{Lit: "3"}}, nil
+	case "number('x')":
+		return &xast.Call{Name: "number", Args: []xast.Expr{&xast.Str{S: "x"}}}, nil
+	case "1 div 0":
+		return &xast.Bin{Op: "div", L: &xast.Num{Lit: "1"}, R: &xast.Num{Lit: "0"}}, nil
+	case "-1 div 0":
+		return &xast.Bin{Op: "div", L: &xast.Neg{X: &xast.Num{Lit: "1"}}, R: &xast.Num{Lit: "0"}}, nil
+	case "count(//a)":
+		return &xast.Call{Name: "count", Args: []xast.Expr{&xast.Path{Abs: true, Steps: []interface{}{xast.DSlash{}, name("a")}}}}, nil
+	case "string(//a)":
+		return &xast.Call{Name: "string", Args: []xast.Expr{&xast.Path{Abs: true, Steps: []interface{}{xast.DSlash{}, name("a")}}}}, nil
+	case "//a", "//b", "//zz":
+		return &xast.Path{Abs: true, Steps: []interface{}{xast.DSlash{}, name(s[2:])}}, nil
+	case "//@x":
+		return &xast.Path{Abs: true, Steps: []interface{}{xast.DSlash{}, &xast.Step{Axis: "attribute", Test: xast.NodeTest{Kind: "name", Local: "x"}, Abbr: true}}}, nil
+	case "//text()":
+		return &xast.Path{Abs: true, Steps: []interface{}{xast.DSlash{}, &xast.Step{Axis: "child", Test: xast.NodeTest{Kind: "text"}, Abbr: true}}}, nil
+	case "a":
+		return &xast.Path{Steps: []interface{}{name("a")}}, nil
+	case "@y":
+		return &xast.Path{Steps: []interface{}{&xast.Step{Axis: "attribute", Test: xast.NodeTest{Kind: "name", Local: "y"}, Abbr: true}}}, nil
+	case ".":
+		return &xast.Path{Steps: []interface{}{&xast.Step{Axis: "self", Test: xast.NodeTest{Kind: "node"}, Abbr: true}}}, nil
+	}
+	if len(s) >= 2 && s[0] == '\'' && s[len(s)-1] == '\'' {
+		return &xast.Str{S: s[1 : len(s)-1]}, nil
+	}
+	return nil, fmt.Errorf("unknown operand %q", s)
+}
+
+func parseSimpleCmp(l, op, r string) (xast.Expr, error) {
+	a, err := operandAST(l)
+	if err != nil {
+		return nil, err
+	}
+	b, err := operandAST(r)
+	if err != nil {
+		return nil, err
+	}
+	return &xast.Bin{Op: op, L: a, R: b}, nil
+}
+
+// richDocsC07: documents with numeric, non-numeric, empty and mixed values.
+func richDocsC07(seed int) []*xdoc.Doc {
+	docs := []*xdoc.Doc{
+		xdoc.MustParse("<r x='1' y='t'><a>{1}</a><a>{2}</a><a>{t}</a><b x='2.5'>{ 12 }</b><b>{1e3}</b><a x='10' y=''/>{10}</r>"),
+		xdoc.MustParse("<a x='-3'><a>{10}</a><b>{-3}</b><b y='1'/><a/></a>"),
+		xdoc.MustParse("<b><a>{t}</a><a>{x y}</a><!--1--></b>"),
+		xdoc.MustParse("<c/>"),
+	}
+	o := xgen.CmpDoc()
+	gen := rapid.Custom(func(t *rapid.T) *xdoc.Doc { return xgen.Doc(t, o) }).Filter(func(d *xdoc.Doc) bool { return len(d.Nodes) >= 10 && len(d.Nodes) <= 30 })
+	for i := 0; i < 4; i++ {
+		docs = append(docs, gen.Example(seed*100+i))
+	}
+	return docs
 }
